@@ -339,6 +339,30 @@ def run_one(ch, cfg):
                              % (desc, j + 2, rk, ck, _show(real2) if isinstance(real2, dict) else real2,
                                 _show(ref2) if isinstance(ref2, dict) else ref2)))
                 break
+    # ---- an element replaced on the live object: the next verdict is about the certificate as it is now
+    if isinstance(rn, dict) and isinstance(fn, dict) and rn == fn and not viol and \
+            isinstance(stored, dict) and ch.draw(3, "replace-element") == 1:
+        import copy as _copy
+        from admin.certificate_v2 import HSMCertificateV2Element
+        doc2 = _copy.deepcopy(stored)
+        cands = [x for x in doc2["elements"] if x.get("type") in ("sgx_quote", "sgx_attestation_key")]
+        if cands:
+            e2 = cands[ch.draw(len(cands), "replace.which")]
+            f2 = ch.pick(["signature", "message"], "replace.field")
+            e2[f2] = flip(bytes.fromhex(e2[f2]), ch, "replace").hex()
+            try:
+                w.clock.now = when
+                cert.add_element(HSMCertificateV2Element.from_dict(e2))
+                real3 = _norm(cert.validate_and_get_values(rootel))
+                rc3 = REF.load(doc2)
+                ref3 = _norm(REF.validate(rc3, root_der, when)) if rc3 is not None else None
+                if ref3 is not None and real3 != ref3:
+                    viol.append(("history/element-replaced",
+                                 "%s; element %s (%s) replaced on the same object: real %s, reference %s" % (
+                                     desc, e2["name"], f2, _show(real3) if isinstance(real3, dict) else real3,
+                                     _show(ref3) if isinstance(ref3, dict) else ref3)))
+            except ValueError:
+                pass
     if cls == "genuine" and clock_cls == "inside" and windows is None and \
             isinstance(rn, dict) and not rn.get("quote", (False,))[0]:
         viol.append(("verdict/genuine-rejected", desc))
